@@ -67,6 +67,7 @@ type Shared struct {
 	paranoid int // cross-check every n-th solver-free decision with the solver (0 = off)
 	overrides map[string]extFn
 	permuteMaps bool
+	mapPermBudget int
 	exploreSched bool
 	traceAccess  bool
 	schedBudget  int
@@ -178,6 +179,8 @@ type Engine struct {
 	Goroutines  int
 	schedForks  int
 	schedOff    bool
+	permOff     bool
+	permForks   int
 	Notifies    int
 	race        *raceState
 	raceQ       int
@@ -777,6 +780,8 @@ func (e *Engine) runPath(entry *ssa.Function) {
 	e.vfs = nil
 	e.schedForks = 0
 	e.schedOff = false
+	e.permOff = false
+	e.permForks = 0
 	e.sol.Push()
 	outcome := "ok"
 	func() {
